@@ -140,9 +140,16 @@ var (
 	}
 )
 
+// sameCollectionName compares two collection names ignoring letter case. The names are ASCII, so only spellings of
+// the same length are case variants of each other: a rune outside ASCII that strings.EqualFold folds onto an
+// ASCII letter (U+212A KELVIN SIGN onto k, U+017F LATIN SMALL LETTER LONG S onto s) takes more than one byte.
+func sameCollectionName(a, b string) bool {
+	return len(a) == len(b) && strings.EqualFold(a, b)
+}
+
 func (t CollectionPaths) Contains(typ CollectionPath) bool {
 	for _, tt := range t {
-		if strings.EqualFold(string(typ), string(tt)) {
+		if sameCollectionName(string(typ), string(tt)) {
 			return true
 		}
 	}
@@ -287,7 +294,7 @@ func (t CollectionPath) Of(i Item) Item {
 // OfActor returns the base IRI of received i, if i represents an IRI matching CollectionPath type t
 func (t CollectionPath) OfActor(i IRI) (IRI, error) {
 	maybeActor, maybeCol := filepath.Split(i.String())
-	if strings.EqualFold(maybeCol, string(t)) {
+	if sameCollectionName(maybeCol, string(t)) {
 		maybeActor = strings.TrimRight(maybeActor, "/")
 		return IRI(maybeActor), nil
 	}
@@ -319,7 +326,7 @@ var validObjectCollection = []CollectionPath{
 
 func getValidObjectCollection(typ CollectionPath) CollectionPath {
 	for _, t := range validObjectCollection {
-		if strings.EqualFold(string(typ), string(t)) {
+		if sameCollectionName(string(typ), string(t)) {
 			return t
 		}
 	}
